@@ -310,7 +310,10 @@ func c03Apply(root interface{}, m c03Mut) interface{} {
 			return c03Set(root, p, pick([]string{"utf-8", "iso-8859-1", "windows-1252", "utf-16", ""}, m.Arg), false)
 		case key == "args":
 			arr, _ := cur.([]interface{})
-			switch m.Arg % 4 {
+			switch m.Arg % 5 {
+			case 4:
+				// a surplus argument WITHOUT a value (an xpath that matches nothing)
+				return c03Set(root, p, append(arr, map[string]interface{}{"xpath": "nosuch"}), false)
 			case 0:
 				if len(arr) > 0 {
 					return c03Set(root, p, arr[:len(arr)-1], false)
@@ -376,7 +379,7 @@ type c03Case struct {
 	Shape   gen.Shape `json:"shape"`
 	Recs    []gen.Rec `json:"recs"`
 	Muts    []c03Mut  `json:"muts"`
-	InKind  int       `json:"in_kind"` // 0 matching input, 1 malformed (Mals), 2 input of another sample, 3 two copies, 4 binary noise, 5 huge line, 6 empty
+	InKind  int       `json:"in_kind"` // 0 matching input, 1 malformed (Mals), 2 input of another sample, 3 two copies, 4 binary noise, 5 huge line, 6 empty, 7 behind another prolog (c03Prologs[Other])
 	Mals    []malform `json:"mals,omitempty"`
 	Other   int       `json:"other"`
 	Noise   []byte    `json:"noise,omitempty"`
@@ -400,12 +403,16 @@ func genC03(t *rapid.T) c03Case {
 	nm := rapid.SampledFrom([]int{0, 0, 0, 1, 1, 1, 1, 1, 2, 2, 3, 4}).Draw(t, "nmuts")
 	for i := 0; i < nm; i++ {
 		c.Muts = append(c.Muts, c03Mut{
-			Path: rapid.IntRange(0, 5000).Draw(t, fmt.Sprintf("m%dpath", i)),
-			Op:   rapid.SampledFrom([]int{0, 1, 2, 3, 4, 5, 6, 7, 8, 9, 9, 9, 9, 9, 9, 9, 9, 9, 9, 9, 9, 10, 10, 10, 10, 10, 10, 11, 12, 12, 12}).Draw(t, fmt.Sprintf("m%dop", i)),
-			Arg:  rapid.IntRange(0, 5000).Draw(t, fmt.Sprintf("m%darg", i)),
+			// (two draws each: rapid's integer draws favour the ends of a range, the sum is spread out)
+			Path: rapid.IntRange(0, 2500).Draw(t, fmt.Sprintf("m%dpath", i)) + rapid.IntRange(0, 2500).Draw(t, fmt.Sprintf("m%dpathB", i)),
+			Op:   rapid.SampledFrom([]int{0, 1, 2, 3, 4, 5, 6, 7, 8, 9, 9, 9, 9, 9, 9, 9, 9, 9, 9, 9, 9, 10, 10, 10, 10, 10, 10, 11, 12, 12, 12, 12, 12}).Draw(t, fmt.Sprintf("m%dop", i)),
+			Arg:  rapid.IntRange(0, 2500).Draw(t, fmt.Sprintf("m%darg", i)) + rapid.IntRange(0, 2500).Draw(t, fmt.Sprintf("m%dargB", i)),
 		})
 	}
-	c.InKind = rapid.SampledFrom([]int{0, 0, 0, 1, 1, 1, 1, 2, 3, 4, 5, 6}).Draw(t, "inKind")
+	c.InKind = rapid.SampledFrom([]int{0, 0, 0, 1, 1, 1, 1, 2, 3, 4, 5, 6, 7}).Draw(t, "inKind")
+	if c.InKind == 7 {
+		c.Other = rapid.IntRange(0, len(c03Prologs)-1).Draw(t, "prolog")
+	}
 	switch c.InKind {
 	case 1:
 		n := rapid.IntRange(1, 2).Draw(t, "nmal")
@@ -429,6 +436,16 @@ func genC03(t *rapid.T) c03Case {
 		c.Noise = rapid.SliceOfN(rapid.Byte(), 0, 200).Draw(t, "noise")
 	}
 	return c
+}
+
+// c03Prologs: what a producer may put in front of a document - XML declarations with all sorts of encoding labels and
+// versions, a DTD, byte-order marks of several encodings, blank lines.
+var c03Prologs = []string{
+	`<?xml version="1.0" encoding="utf8"?>`, `<?xml version="1.0" encoding="UTF8"?>`, `<?xml version="1.0" encoding="unicode-1-1-utf-8"?>`,
+	`<?xml version="1.0" encoding="utf-8"?>`, `<?xml version="1.0" encoding="ISO-8859-1"?>`, `<?xml version="1.0" encoding="latin1"?>`,
+	`<?xml version="1.0" encoding="UTF-16"?>`, `<?xml version="1.0" encoding="no-such-charset"?>`, `<?xml version="1.0" encoding=""?>`,
+	`<?xml version="1.1"?>`, `<?xml version="1.0" standalone="yes"?>`, `<!DOCTYPE r [<!ENTITY e "v">]>`, `<?xml version="1.0"?><!-- c --><?pi x?>`,
+	"\xef\xbb\xbf", "\xff\xfe", "\xfe\xff", "\xef\xbb\xbf\xef\xbb\xbf", "\n\n", " ", "\x00",
 }
 
 func (c c03Case) build() (schema []byte, input []byte, mutated bool) {
@@ -476,6 +493,15 @@ func (c c03Case) build() (schema []byte, input []byte, mutated bool) {
 		in = append(append([]byte{}, in...), bytes.Repeat([]byte("a"), 70000)...)
 	case 6:
 		in = nil
+	case 7:
+		// the matching input behind another prolog (an XML declaration replaces the input's own, if any)
+		body := in
+		if bytes.HasPrefix(body, []byte("<?xml")) {
+			if i := bytes.Index(body, []byte("?>")); i >= 0 {
+				body = body[i+2:]
+			}
+		}
+		in = append([]byte(c03Prologs[c.Other%len(c03Prologs)]), body...)
 	}
 	return schema, in, len(c.Muts) > 0
 }
